@@ -380,7 +380,7 @@ def job_transform(method, process, keep_mean, tier):
     return run_case(f"C20/transform[{method},process={process},keep_mean={keep_mean}]", sc, wv, "transform", {"method": method, "process": process, "keep_mean": keep_mean}, T, max_paths=80)
 
 
-def job_normalizer(name, tier):
+def job_normalizer(name, tier, in_range=True):
     gs = _setup()
     T = core.tier_timeout(tier)
     d = S("d0", "d1")
@@ -390,17 +390,24 @@ def job_normalizer(name, tier):
     def sc(w):
         par = {"lmbda": lam} if name in ("BoxCox", "YeoJohnson", "Manly", "Modulus") else {}
         nz = getattr(gs.normalizer, name)(**par)
-        if name in ("LogNormal", "BoxCox"):
+        if name in ("LogNormal", "BoxCox") and in_range:
             for s_ in d:
                 sym.assume(s_ > 0)
+        if not in_range:
+            # data outside the valid range of the normaliser (the library warns and returns NaN there): the caller's array
+            # still has to stay as it is
+            import warnings
+
+            warnings.simplefilter("ignore")
         a = w.arr("data", d)
         n = nz.normalize(a)
         w.stored("normalized#1", n)
         nz.denormalize(n)
         nz.derivative(a)
-        nz.kernel_loglikelihood(a)
+        if in_range:  # (with every entry outside the range the likelihood is a mean over no data)
+            nz.kernel_loglikelihood(a)
 
-    return run_case(f"C20/Normalizer[{name}]", sc, wv, "normalizer", {"name": name}, T, max_paths=120)
+    return run_case(f"C20/Normalizer[{name}{'' if in_range else ', data outside the valid range'}]", sc, wv, "normalizer", {"name": name, "in_range": in_range}, T, max_paths=200)
 
 
 def job_fit(latlon, tier):
@@ -471,6 +478,8 @@ def jobs(tier, seed):
         js.append(Job(f"transform-{method}-{process}-{keep}", job_transform, method, process, keep, tier))
     for n in ("Normalizer", "LogNormal", "BoxCox", "YeoJohnson", "Manly"):
         js.append(Job(f"normalizer-{n}", job_normalizer, n, tier))
+    for n in ("LogNormal", "BoxCox", "Manly"):
+        js.append(Job(f"normalizer-{n}-outside", job_normalizer, n, tier, False))
     js.append(Job("fit", job_fit, False, tier))
     js.append(Job("fit-latlon", job_fit, True, tier))
     return js
@@ -686,6 +695,14 @@ def _r_normalizer(w, v, inp):
     par = {"lmbda": _val(v, "lmbda", 0.6)} if name in ("BoxCox", "YeoJohnson", "Manly", "Modulus") else {}
     nz = getattr(gs.normalizer, name)(**par)
     d = [abs(_val(v, "d0", 0.7)) + 0.1, abs(_val(v, "d1", 1.9)) + 0.1] if name in ("LogNormal", "BoxCox") else [_val(v, "d0", 0.7), _val(v, "d1", -1.9)]
+    if not inp.get("in_range", True):
+        import warnings
+
+        warnings.simplefilter("ignore")
+        d = [-abs(_val(v, "d0", 0.7)) - 0.1, abs(_val(v, "d1", 1.9)) + 0.1]  # one entry outside the valid range
+        if name == "Manly":
+            lm = par["lmbda"] or 0.6
+            d = [(-1.0 / lm) - (1.0 if lm > 0 else -1.0), 0.3]
     a = w.arr("data", d)
     n = nz.normalize(a)
     w.stored("normalized#1", n)
